@@ -256,6 +256,8 @@ def run_aranges(ctx, case):
     ctx.count('ar.addr.%s' % ('mixed' if len(sizes) > 1 else '-'.join(map(str, sizes)) or 'none'))
     if any(not s['ranges'] for s in sets):
         ctx.count('ar.has-empty-set')
+    if any(s.get('slack') for s in sets[:-1]):
+        ctx.count('ar.slack-behind-terminator')
     if sets and not exp_entries:
         ctx.count('ar.all-empty')
     if not sets:
@@ -993,6 +995,9 @@ def gen_aranges(ch, tier):
             pos += 16 + 2 * s['A'] * (len(s['ranges']) + 1)
         if ok:
             sets = cand
+    for s in sets:
+        if ch.bool(0.2):
+            s['slack'] = ch.choice([bytes(16), bytes(32), b'\xaa' * 16, ch.bytes(16, 16), b'\x01' + bytes(15)])
     case = {'fam': 'aranges', 'le': le, 'default_addr': ch.choice([4, 8]), 'sets': sets,
             'queries': [ch.word(64) for _ in range(ch.int(0, 3))]}
     if shadow_done:
@@ -1280,7 +1285,7 @@ def sweep(tier):
 
 def floors(ctx):
     c = ctx.counters
-    need = ['fam.aranges', 'fam.names', 'fam.units', 'fam.farunits', 'ar.fmt64', 'nm.slack-behind-terminator', 'ar.le', 'ar.be', 'ar.addr.4', 'ar.addr.8', 'ar.addr.mixed', 'ar.has-empty-set', 'ar.all-empty',
+    need = ['fam.aranges', 'fam.names', 'fam.units', 'fam.farunits', 'ar.fmt64', 'nm.slack-behind-terminator', 'ar.slack-behind-terminator', 'ar.le', 'ar.be', 'ar.addr.4', 'ar.addr.8', 'ar.addr.mixed', 'ar.has-empty-set', 'ar.all-empty',
             'ar.no-sets', 'ar.adjacent-different-units', 'ar.range-at-0', 'ar.range-to-max', 'ar.unsorted-set', 'ar.zero-length-range', 'ar.sets.8',
             'ar.q.first', 'ar.q.last', 'ar.q.inner', 'ar.q.end', 'ar.q.before', 'ar.q.outside',
             'nm.le', 'nm.be', 'nm.sets.0', 'nm.sets.6', 'nm.has-empty-set', 'nm.all-empty', 'nm.non-ascii', 'nm.non-bmp', 'nm.duplicate-family',
